@@ -379,7 +379,11 @@ bool xact_base_t::finalize()
     DEBUG("xact.finalize", "there was a null posting");
     add_balancing_post post_adder(*this, null_post);
 
-    if (balance.is_balance())
+    if (balance.is_balance() && balance.as_balance().is_empty())
+      // every other posting cancelled exactly and nothing is left to offset:
+      // the elided amount is zero, as it is when a single commodity cancels
+      post_adder(amount_t(0L));
+    else if (balance.is_balance())
       balance.as_balance_lval().map_sorted_amounts(post_adder);
     else if (balance.is_amount())
       post_adder(balance.as_amount_lval());
